@@ -175,11 +175,18 @@ def rule_utc(ck):
     g = P.func(T + 'strptime_to_utc_datetime')
     ex = Expander(P, g)
     r = [x for x in returns(g) if x.value is not None]
-    o = ck.ob('C15-D2.parse', g, r[0].value, r[0])
-    e = ex.expand(r[0].value)
-    txt = u(e)
-    good = 'datetime.datetime.strptime(time_string' in txt and txt.endswith('.replace(tzinfo=datetime.timezone.utc)')
-    (o.ok('strptime(...).replace(tzinfo=UTC)') if good else o.fail('parsed time strings are not returned as UTC-tagged datetimes: `%s`' % txt[:90]))
+    # every way out of the parser is the library parser tagged as UTC: a hand-written parse of the fields (fraction digits,
+    # two-digit fields, ...) is a second implementation of the time format
+    for x in r:
+        o = ck.ob('C15-D2.parse', g, x.value, x)
+        bad = None
+        for alt in phi_alternatives(ex.expand(x.value)):
+            txt = u(alt)
+            if not ('datetime.datetime.strptime(time_string' in txt.replace('(%s' % g.positional_params[0], '(time_string')
+                    and txt.endswith('.replace(tzinfo=datetime.timezone.utc)')):
+                bad = txt
+        (o.ok('strptime(...).replace(tzinfo=UTC)') if bad is None else
+         o.fail('parsed time strings are not returned as strptime(...) tagged UTC on every path: `%s`' % bad[:90]))
 
 
 def rule_formats(ck):
